@@ -60,8 +60,13 @@ impl World {
         let t = Key::from(target_peer);
         a.sort_by_key(|p| t.distance(&Key::from(*p)));
         let mut b = peers.clone();
-        let t = Key::new(target_key.clone());
-        b.sort_by_key(|p| t.distance(&Key::from(*p)));
+        let t2 = Key::new(target_key.clone());
+        b.sort_by_key(|p| t2.distance(&Key::from(*p)));
+        // ranks stand for distances only if the order is strict (distinct peers, distinct distances)
+        let strict = |v: &Vec<PeerId>, d: &dyn Fn(&PeerId) -> litep2p::protocol::libp2p::kademlia::verif::Distance| {
+            v.windows(2).all(|w| d(&w[0]) < d(&w[1]))
+        };
+        assert!(strict(&a, &|p| t.distance(&Key::from(*p))) && strict(&b, &|p| t2.distance(&Key::from(*p))));
         let addrs = (0..NADDR as u16)
             .map(|i| format!("/ip4/10.0.0.{}/tcp/{}", i + 1, 1000 + i).parse().unwrap())
             .collect();
